@@ -1,11 +1,17 @@
-(* C05 — theorems are added as they close; see Index/Index.v (model) and Index/Index_Spec.v (spec) *)
-From SA Require Import Base.Prelude Index.Index Index.Index_Spec.
+(* C05 — positions() returns exactly the token offsets of the term in every document.  Statement-only file. *)
+From SA Require Import Base.Prelude Index.Index Index.Index_Spec Index.Index_Proofs3.
 Open Scope N_scope.
-Example C05_model_spec_example :
-  match index false 2 [[1;2;1;3];[];[2];[1;1;2];[]] with
-  | AOk ix => termfreqs ix 1 = AOk (tf_spec [[1;2;1;3];[];[2];[1;1;2];[]] 1) /\
-              docfreq ix 2 = AOk (df_spec [[1;2;1;3];[];[2];[1;1;2];[]] 2) /\
-              doclengths ix = lens_spec [[1;2;1;3];[];[2];[1;1;2];[]] /\
-              positions ix 2 = AOk (positions_spec [[1;2;1;3];[];[2];[1;1;2];[]] 2)
+
+Theorem C05_positions_are_offsets : forall docs bs, wf_docs docs ->
+  exists ix, index false bs docs = AOk ix /\
+    (forall t, In t (concat docs) -> positions ix t = AOk (positions_spec docs t)) /\
+    (forall t, ~ In t (concat docs) -> positions ix t = AExc TermMissing).
+Proof. exact C05_positions_any. Qed.
+Print Assumptions C05_positions_are_offsets.
+
+Example C05_nonvacuous :
+  let d := [0;1;1;1;1;1;1;1;1;1;1;1;1;1;1;1;1;0;0;1;1;1;1;1;1;1;1;1;1;1;1;1;1;1;1;0;0] in
+  match index false 10 [d; [1]; [0]] with
+  | AOk ix => positions ix 0 = AOk [[0;17;18;35;36]; []; [0]]
   | _ => False end.
-Proof. vm_compute. repeat split. Qed.
+Proof. vm_compute. reflexivity. Qed.
